@@ -18,6 +18,9 @@ use std::process::{Child, ChildStdin, ChildStdout, Command, Stdio};
 
 pub use serde_json::{Value, json};
 
+// Core-family shared history machinery; behind a feature so that a compile error in it (it is
+// under active development) cannot break the other properties' binaries.
+#[cfg(feature = "hist")]
 pub mod hist;
 
 pub const EXIT_OK: i32 = 0;
